@@ -313,19 +313,30 @@ func search(spec SearchSpec) (found bool, target ssa.Instruction, path []*ssa.Ba
 	} else if blocked {
 		return false, nil, nil
 	}
-	visited := map[*ssa.BasicBlock]bool{} // visited from index 0
+	// visited is keyed by (block, predecessor it was entered from): the predecessor decides the value
+	// of the block's phis, which lets constant-infeasible branch edges be pruned (correlated phis:
+	// `code := x; if bad { code = 17 }; if code == 0 { sink }`).
+	type vkeyT struct{ b, from *ssa.BasicBlock }
+	visited := map[vkeyT]bool{}
 	queue := []*node{start}
 	for len(queue) > 0 {
 		n := queue[0]
 		queue = queue[1:]
+		var from *ssa.BasicBlock
+		if n.prev != nil {
+			from = n.prev.b
+		}
 		for si, s := range n.b.Succs {
 			if spec.Removed != nil && spec.Removed(n.b, si) {
 				continue
 			}
-			if visited[s] {
+			if from != nil && phiEdgeInfeasible(n.b, from, si) {
 				continue
 			}
-			visited[s] = true
+			if visited[vkeyT{s, n.b}] {
+				continue
+			}
+			visited[vkeyT{s, n.b}] = true
 			nn := &node{b: s, prev: n}
 			t, blocked := scan(s, 0)
 			if t != nil {
@@ -338,6 +349,65 @@ func search(spec SearchSpec) (found bool, target ssa.Instruction, path []*ssa.Ba
 		}
 	}
 	return false, nil, nil
+}
+
+// phiEdgeInfeasible: block b was entered from predecessor `from`; b ends in an If whose condition
+// compares a phi of b (or is a boolean phi of b) with a constant; the phi's incoming value on that
+// edge is itself a constant. Then exactly one successor is feasible.
+func phiEdgeInfeasible(b, from *ssa.BasicBlock, si int) bool {
+	if len(b.Instrs) == 0 {
+		return false
+	}
+	ifi, ok := b.Instrs[len(b.Instrs)-1].(*ssa.If)
+	if !ok {
+		return false
+	}
+	pi := -1
+	for i, p := range b.Preds {
+		if p == from {
+			if pi >= 0 {
+				return false // entered twice from the same block (both If edges): ambiguous
+			}
+			pi = i
+		}
+	}
+	if pi < 0 {
+		return false
+	}
+	l := litOf(ifi.Cond, si == 0)
+	incoming := func(v ssa.Value) (*ssa.Const, bool) {
+		p, ok := strip(v).(*ssa.Phi)
+		if !ok || p.Block() != b || pi >= len(p.Edges) {
+			return nil, false
+		}
+		c, ok := strip(p.Edges[pi]).(*ssa.Const)
+		return c, ok && c.Value != nil
+	}
+	if l.Op == token.ILLEGAL {
+		c, ok := incoming(l.X)
+		if !ok || c.Value.Kind().String() != "Bool" {
+			return false
+		}
+		val := c.Value.ExactString() == "true"
+		return val == l.Neg // literal says X is (not Neg); infeasible when the constant disagrees
+	}
+	if l.Op != token.EQL && l.Op != token.NEQ {
+		return false
+	}
+	c, ok := incoming(l.X)
+	k, ok2 := strip(l.Y).(*ssa.Const)
+	if !ok || !ok2 || k.Value == nil {
+		c, ok = incoming(l.Y)
+		k, ok2 = strip(l.X).(*ssa.Const)
+		if !ok || !ok2 || k.Value == nil {
+			return false
+		}
+	}
+	equal := c.Value.ExactString() == k.Value.ExactString()
+	if l.Op == token.EQL {
+		return !equal
+	}
+	return equal
 }
 
 // passEdges computes, for a function, the set of If-edges on which at least one atom of the clause
